@@ -32,6 +32,7 @@ def extract(text: str, pos=None, options: dict=None) -> tuple:
     """
     if pos is None:
         pos = len(text)
+    pos = min(len(text), max(0, pos))
 
     opt = { 'lookAhead': True, 'whitespace': True }
     if options: opt.update(options)
